@@ -271,6 +271,11 @@ v("C20", "append-to-shared-slice", KV, "func (e *kvElection) getMetricsLabels() 
 
 v("C13", "takeover-uses-entry-without-nil-test", KV, "\tif entry == nil {\n\t\t// The adapters answer (nil, nil) for a key that holds no entry: the\n\t\t// record was deleted between the refused Create and this read. There is\n\t\t// nothing to preempt; the caller's retry creates the key.\n\t\treturn fmt.Errorf(\"priority takeover skipped: the leadership record is gone\")\n\t}\n", "", ["C13-R7"], "a record deleted between the refused Create and the Get crashes the takeover candidate")
 
+# ---- round 6
+v("C06", "ticker-rearmed-on-every-watch-event", W, "\t\t\te.handleWatchEvent(entry)\n\t\tcase <-checkTicker.C:", "\t\t\te.handleWatchEvent(entry)\n\t\t\tcheckTicker.Reset(500 * time.Millisecond)\n\t\tcase <-checkTicker.C:", ["C06-R2"], "every watch event re-arms the existence-check ticker: a leader that refreshes faster than the period starves the check")
+v("C11", "default-grace-resolved-in-the-constructor", KV, "\te := &kvElection{\n\t\tcfg: cfg,", "\tif cfg.DisconnectGracePeriod == 0 {\n\t\tcfg.DisconnectGracePeriod = 3 * cfg.HeartbeatInterval\n\t}\n\te := &kvElection{\n\t\tcfg: cfg,", ["C11-R1"], "the constructor resolves the default grace period to 3 x H: the 5 s floor applied where the timer is armed becomes dead code")
+v("C18", "transition-labels-cached-by-target-state", KV, "\tlabels := e.getMetricsLabels()\n\tlabels[\"from_state\"] = fromState\n\tlabels[\"to_state\"] = toState\n\te.cfg.Metrics.IncTransitions(labels)\n", "\tlabels, ok := e.transitionLabels[toState]\n\tif !ok {\n\t\tlabels = e.getMetricsLabels()\n\t\tlabels[\"from_state\"] = fromState\n\t\tlabels[\"to_state\"] = toState\n\t\tif e.transitionLabels == nil {\n\t\t\te.transitionLabels = map[string]prometheus.Labels{}\n\t\t}\n\t\te.transitionLabels[toState] = labels\n\t}\n\te.cfg.Metrics.IncTransitions(labels)\n", ["C18-R2"], "label sets cached by target state only: the second transition into a state is recorded with the first one's from-state", also=[("\ttermCtx context.Context\n\n", "\ttermCtx context.Context\n\ttransitionLabels map[string]prometheus.Labels\n\n")])
+
 def main():
     only = set(sys.argv[1:])
     work = tempfile.mkdtemp(prefix="mkvariants-")
